@@ -6,7 +6,7 @@
 From Coq Require Import List NArith ZArith Bool Arith Lia ZifyN ZifyNat ZifyBool.
 Import ListNotations.
 From GM Require Import Base.Topic Base.Msg Model.SubTrie Model.RetTrie Model.Queue Model.Limiter Model.TopicMatch
-  Model.Broker Proofs.TopicP Proofs.SubTrieP Proofs.LimiterP Proofs.BrokerQos2P.
+  Model.Broker Proofs.TopicP Proofs.SubTrieP Proofs.LimiterP Proofs.BrokerBasicP Proofs.BrokerQos2P.
 Open Scope N_scope.
 
 (* ================================================================== *)
@@ -1595,6 +1595,7 @@ Proof.
   intros Hk. destruct p; cbn [handle_packet hres_st]; try apply gframe_refl.
   - (* PUBLISH *)
     destruct (has_wild topic); [apply gframe_refl|].
+    match goal with |- context [if ?b then HErrRead s (Some 130) else _] => destruct b end; [apply gframe_refl|].
     match goal with |- context [if ?b then HErrRead s (Some 147) else _] => destruct b end; [apply gframe_refl|].
     change (if (k_v k =? 5) && (0 <? qos) then set_quota (k_quota k - 1) k else k) with (charge k qos).
     destruct (charge_att k qos) as [Ha Hc].
@@ -1648,7 +1649,44 @@ Proof.
     + cbn [hres_st]. eapply gframe_upd_self; [exact Hk| |]; reflexivity.
 Qed.
 
+(* a packet larger than the server's maximum: the same frame (nothing is handled) *)
+Lemma handle_packet_sz_gframe c k p n s :
+  nget c (b_conns s) = Some k -> gframe s (hres_st (handle_packet_sz c k p n s)).
+Proof.
+  intros Hk. destruct (too_big k n s) eqn:Hb; [|rewrite handle_packet_sz_small by exact Hb; now apply handle_packet_gframe].
+  destruct (handle_packet_sz_big c k p n s Hb) as [code| |q]; cbn [hres_st]; try apply gframe_refl.
+  eapply gframe_upd_self; [exact Hk| |]; reflexivity.
+Qed.
+
 (* ---- 6.9 the instrumented step and run ---- *)
+(* what the read loop does with the handler's result *)
+Definition finish_w (c : N) (r : hres) : (st * list out) * wlog :=
+  match r with
+  | HOk s' o => ((s', o), [])
+  | HErr s' o code => let '((s'', o'), l) := fail_conn_w c code false s' in ((s'', o ++ o'), l)
+  | HErrRead s' code => fail_conn_w c code true s'
+  end.
+
+Definition send_unconnected_w (c : N) (k : conn) (p : pkt) (s : st) : (st * list out) * wlog :=
+  match k_phase k with
+  | PhFresh => ((upd_conn c (set_phase PhDead k) s, [OSend c (KConnack false 129 [])]), [])
+  | PhZombie =>
+      match p with
+      | KPublish _ qos _ _ _ _ _ =>
+          if (k_v k =? 5) && (0 <? qos) then
+            if k_quota k =? 0 then conn_gone_w c s
+            else ((upd_conn c (set_quota (k_quota k - 1) k) s, []), [])
+          else ((s, []), [])
+      | _ => ((s, []), [])
+      end
+  | PhDead =>
+      match p with
+      | KPublish _ qos _ _ _ _ _ => if (k_v k =? 5) && (0 <? qos) then conn_gone_w c s else ((s, []), [])
+      | _ => ((s, []), [])
+      end
+  | _ => ((s, []), [])
+  end.
+
 Definition step_event_w (s : st) (e : event) : (st * list out) * wlog :=
   match e with
   | EConnect c cn =>
@@ -1660,23 +1698,17 @@ Definition step_event_w (s : st) (e : event) : (st * list out) * wlog :=
       match nget c (b_conns s) with
       | Some k =>
           match k_phase k with
-          | PhConnected =>
-              match handle_packet c k p s with
-              | HOk s' o => ((s', o), [])
-              | HErr s' o code => let '((s'', o'), l) := fail_conn_w c code false s' in ((s'', o ++ o'), l)
-              | HErrRead s' code => fail_conn_w c code true s'
-              end
-          | PhFresh => ((upd_conn c (set_phase PhDead k) s, [OSend c (KConnack false 129 [])]), [])
-          | PhZombie =>
-              match p with
-              | KPublish _ qos _ _ _ _ _ =>
-                  if (k_v k =? 5) && (0 <? qos) then
-                    if k_quota k =? 0 then conn_gone_w c s
-                    else ((upd_conn c (set_quota (k_quota k - 1) k) s, []), [])
-                  else ((s, []), [])
-              | _ => ((s, []), [])
-              end
-          | _ => ((s, []), [])
+          | PhConnected => finish_w c (handle_packet c k p s)
+          | _ => send_unconnected_w c k p s
+          end
+      | None => ((s, []), [])
+      end
+  | ESendSz c p n =>
+      match nget c (b_conns s) with
+      | Some k =>
+          match k_phase k with
+          | PhConnected => finish_w c (handle_packet_sz c k p n s)
+          | _ => send_unconnected_w c k p s
           end
       | None => ((s, []), [])
       end
@@ -1715,6 +1747,26 @@ Definition step_event_w (s : st) (e : event) : (st * list out) * wlog :=
   | EInspect => ((s, []), [])
   end.
 
+Lemma finish_w_fst c r :
+  fst (finish_w c r) = match r with
+                       | HOk s' o => (s', o)
+                       | HErr s' o code => let '(s'', o') := fail_conn c code false s' in (s'', o ++ o')
+                       | HErrRead s' code => fail_conn c code true s'
+                       end.
+Proof.
+  destruct r as [s' o|s' o code|s' code]; cbn [finish_w]; try reflexivity.
+  - rewrite <- fail_conn_w_fst. destruct (fail_conn_w c code false s') as [[s'' o'] l]. reflexivity.
+  - apply fail_conn_w_fst.
+Qed.
+
+Lemma send_unconnected_w_fst c k p s : fst (send_unconnected_w c k p s) = send_unconnected c k p s.
+Proof.
+  unfold send_unconnected_w, send_unconnected. destruct (k_phase k); try reflexivity.
+  - destruct p; try reflexivity. destruct ((k_v k =? 5) && (0 <? qos)); [|reflexivity].
+    destruct (k_quota k =? 0); [apply conn_gone_w_fst|reflexivity].
+  - destruct p; try reflexivity. destruct ((k_v k =? 5) && (0 <? qos)); [apply conn_gone_w_fst|reflexivity].
+Qed.
+
 Lemma step_event_w_erase s e : fst (step_event_w s e) = step_event s e.
 Proof.
   destruct e; cbn [step_event_w step_event]; try reflexivity.
@@ -1722,12 +1774,9 @@ Proof.
     destruct (handle_connect c cn s0). reflexivity.
   - rewrite <- conn_gone_w_fst. destruct (conn_gone_w c s) as [[s0 o0] l0]. reflexivity.
   - destruct (nget c (b_conns s)) as [k|]; [|reflexivity].
-    destruct (k_phase k); try reflexivity.
-    + destruct (handle_packet c k p s) as [s' o|s' o code|s' code]; try reflexivity.
-      * rewrite <- fail_conn_w_fst. destruct (fail_conn_w c code false s') as [[s'' o'] l]. reflexivity.
-      * apply fail_conn_w_fst.
-    + destruct p; try reflexivity. destruct ((k_v k =? 5) && (0 <? qos)); [|reflexivity].
-      destruct (k_quota k =? 0); [apply conn_gone_w_fst|reflexivity].
+    destruct (k_phase k); try apply send_unconnected_w_fst. apply finish_w_fst.
+  - destruct (nget c (b_conns s)) as [k|]; [|reflexivity].
+    destruct (k_phase k); try apply send_unconnected_w_fst. apply finish_w_fst.
   - rewrite <- conn_gone_w_fst. destruct (conn_gone_w c s) as [[s0 o0] l0]. reflexivity.
   - destruct (aget cid (b_online s)) as [c|].
     + destruct (nget c (b_conns s)); [apply conn_gone_w_fst|reflexivity].
@@ -1788,6 +1837,36 @@ Definition estep (e : event) (s s' : st) (l : wlog) : Prop :=
 Lemma estep_of_wstep e s s' l : (forall w, ev_registers w e = 0%nat) -> wstep s s' l -> estep e s s' l.
 Proof. intros He W I. destruct (W I) as [I' L]. split; [exact I'|]. intros w n H. rewrite He, Nat.add_0_r in H. now apply L. Qed.
 
+Lemma finish_w_step c s r :
+  gframe s (hres_st r) -> wstep s (fst (fst (finish_w c r))) (snd (finish_w c r)).
+Proof.
+  intros G. destruct r as [s' o|s' o code|s' code]; cbn [hres_st finish_w] in *.
+  - cbn [fst snd]. now apply wstep_gframe.
+  - pose proof (fail_conn_w_step c code false s') as [W _]. cbv zeta in W.
+    destruct (fail_conn_w c code false s') as [[s'' o'] l]. cbn [fst snd] in *.
+    change l with ([] ++ l). eapply wstep_trans; [apply wstep_gframe; exact G|exact W].
+  - pose proof (fail_conn_w_step c code true s') as [W _]. cbv zeta in W.
+    change (snd (fail_conn_w c code true s')) with ([] ++ snd (fail_conn_w c code true s')).
+    eapply wstep_trans; [apply wstep_gframe; exact G|exact W].
+Qed.
+
+Lemma send_unconnected_w_step c k p s :
+  nget c (b_conns s) = Some k ->
+  wstep s (fst (fst (send_unconnected_w c k p s))) (snd (send_unconnected_w c k p s)).
+Proof.
+  intros Hk. unfold send_unconnected_w. destruct (k_phase k) eqn:Hph; try apply wstep_refl.
+  - cbn [fst snd]. apply wstep_gframe. eapply gframe_upd_self; [exact Hk| |reflexivity].
+    unfold attachedb. rewrite k_phase_set_phase, Hph. reflexivity.
+  - destruct p; try apply wstep_refl.
+    destruct ((k_v k =? 5) && (0 <? qos)); [|apply wstep_refl].
+    destruct (k_quota k =? 0).
+    + pose proof (conn_gone_w_step c s) as (W0 & _). exact W0.
+    + cbn [fst snd]. apply wstep_gframe. eapply gframe_upd_self; [exact Hk| |]; reflexivity.
+  - destruct p; try apply wstep_refl.
+    destruct ((k_v k =? 5) && (0 <? qos)); [|apply wstep_refl].
+    pose proof (conn_gone_w_step c s) as (W0 & _). exact W0.
+Qed.
+
 Lemma step_event_w_estep s e : estep e s (fst (fst (step_event_w s e))) (snd (step_event_w s e)).
 Proof.
   destruct e; cbn [step_event_w].
@@ -1811,23 +1890,13 @@ Proof.
   - (* a packet *)
     apply estep_of_wstep; [reflexivity|].
     destruct (nget c (b_conns s)) as [k|] eqn:Hk; [|apply wstep_refl].
-    destruct (k_phase k) eqn:Hph; try apply wstep_refl.
-    + cbn [fst snd]. apply wstep_gframe. eapply gframe_upd_self; [exact Hk| |reflexivity].
-      unfold attachedb. rewrite k_phase_set_phase, Hph. reflexivity.
-    + pose proof (handle_packet_gframe c k p s Hk) as G.
-      destruct (handle_packet c k p s) as [s' o|s' o code|s' code]; cbn [hres_st] in G.
-      * cbn [fst snd]. now apply wstep_gframe.
-      * pose proof (fail_conn_w_step c code false s') as [W _]. cbv zeta in W.
-        destruct (fail_conn_w c code false s') as [[s'' o'] l]. cbn [fst snd] in *.
-        change l with ([] ++ l). eapply wstep_trans; [apply wstep_gframe; exact G|exact W].
-      * pose proof (fail_conn_w_step c code true s') as [W _]. cbv zeta in W.
-        change (snd (fail_conn_w c code true s')) with ([] ++ snd (fail_conn_w c code true s')).
-        eapply wstep_trans; [apply wstep_gframe; exact G|exact W].
-    + destruct p; try apply wstep_refl.
-      destruct ((k_v k =? 5) && (0 <? qos)); [|apply wstep_refl].
-      destruct (k_quota k =? 0).
-      * pose proof (conn_gone_w_step c s) as (W0 & _). exact W0.
-      * cbn [fst snd]. apply wstep_gframe. eapply gframe_upd_self; [exact Hk| |]; reflexivity.
+    destruct (k_phase k) eqn:Hph; try (now apply send_unconnected_w_step).
+    apply finish_w_step. now apply handle_packet_gframe.
+  - (* a packet with its size *)
+    apply estep_of_wstep; [reflexivity|].
+    destruct (nget c (b_conns s)) as [k|] eqn:Hk; [|apply wstep_refl].
+    destruct (k_phase k) eqn:Hph; try (now apply send_unconnected_w_step).
+    apply finish_w_step. now apply handle_packet_sz_gframe.
   - (* CLOSE *)
     apply estep_of_wstep; [reflexivity|].
     pose proof (conn_gone_w_step c s) as (W0 & _). cbv zeta in W0.
